@@ -136,7 +136,8 @@ static void verif_heap_check (sexp ctx) {
   long nfree = 0, nobjs = 0;
   unsigned char **maps; struct sexp_gc_var_t *saves;
   if (verif_hc_mode < 0) {
-    verif_hc_mode = verif_env_long("CHIBI_VERIF_HEAPCHECK", 0) ? 1 : 0;
+    verif_hc_mode = (int)verif_env_long("CHIBI_VERIF_HEAPCHECK", 0);  /* N: check every N-th collection */
+    if (verif_hc_mode < 0) verif_hc_mode = 0;
     verif_gclog_mode = verif_env_long("CHIBI_VERIF_GCLOG", 0) ? 1 : 0;
     if (verif_hc_mode || verif_gclog_mode) verif_register_atexit();
   }
@@ -154,7 +155,7 @@ static void verif_heap_check (sexp ctx) {
       if (nfree > 100000000) break;
     }
   }
-  if (verif_hc_mode) {
+  if (verif_hc_mode && (verif_gc_events % verif_hc_mode) == 0) {
   verif_hc_runs++;
   maps = calloc(nheaps, sizeof(*maps));
   for (h = sexp_context_heap(ctx), k = 0; h; h = h->next, k++) {
